@@ -7,7 +7,10 @@ Streams of C04 (byte strings in hex; a header map is `name=v1,v2;name=…`, a na
 
   c04.req   method path rawpath opaque rawquery host remoteaddr header contentLength bodyLen bodySeed
             targetParts(scheme,host,path,rawpath,opaque,rawquery) targetString without upRules flags cred upRepls
-            (cred = Authorization value made from the backend URL's credentials, or -; upRepls = field=pat/to,…;…)
+            (cred = Authorization value made from the backend URL's credentials, or -; upRepls = field=pat/to,…;…;
+             flags also says how the block is WRITTEN — `lay=` backends on the directive line / `upstream` lines and the
+             order of the lines, `sib=` a second proxy directive — which the model and the judge do not read: they take
+             the block's meaning, so every spelling of it must give the same answer)
      out  = method scheme urlhost path rawpath opaque rawquery reqhost header contentLength body
             (body = nobody | same | differs)
   c04.resp  status header announced trailer bodyLen bodySeed preHeader downRules flags downRepls
